@@ -48,6 +48,27 @@ func init() {
 				if !b.clusterScoped() && t.predictedNS(a) != t.predictedNS(b) {
 					continue
 				}
+				// the written name must denote ONE resource at every layer (property domain: unambiguous references):
+				// another resource of the referent's kind that bears one of the referent's names somewhere along its own
+				// rename chain (e.g. ConfigMap `app` under prefix `x` next to ConfigMap `xapp`) makes the reference ambiguous
+				ambiguous := false
+				if !e.NoRule {
+					bn := t.chainNames(b)
+					for _, x := range t.Res {
+						if x == b || x.Kind != b.Kind {
+							continue
+						}
+						for n := range t.chainNames(x) {
+							if bn[n] {
+								ambiguous = true
+							}
+						}
+					}
+				}
+				if ambiguous {
+					o.rep.Classes["ambiguous-reference-skipped"]++
+					continue
+				}
 				got, ok := getPath(bt[e.From][0], e.Path)
 				want := outName(bt[e.To][0])
 				if e.NoRule {
